@@ -9,7 +9,7 @@
 (*   -simulate       random walks through the same Next                     *)
 EXTENDS StamStore, Json, SequencesExt
 
-CONSTANTS MaxRes, MaxSets, MaxAnns, MaxData, MaxKeys, Depth, Scenario, Size, Prelude, Reads, DevShift
+CONSTANTS MaxRes, MaxSets, MaxAnns, MaxData, MaxKeys, Depth, Scenario, Size, Prelude, Reads, DevShift, EmitAll
 
 VARIABLES st, hist
 
@@ -77,8 +77,18 @@ DataMenu ==
     \cup {<<DB(ById(s), ById("k1"), NoRef, StrVal("v1")), DB(ById(s), ById("k2"), NoRef, StrVal("v1"))>> : s \in SetIds}
 BadDataMenu == {<<DB(ById("s1"), NoRef, NoRef, StrVal("v1"))>>, <<DB(ById("s1"), ByH(9), NoRef, StrVal("v1"))>>}
 
+\* C04: every cursor pair (in range, out of range, inverted, zero-width, positive end-aligned) against every
+\* resource and relative to every annotation with a single text selection (declared below: Cursors, OffsOver)
+AnnTextLen(x) == LET lf == st.anns[x].leaves[1] IN LeafRange(st, lf)[2] - LeafRange(st, lf)[1]
+OffsetTargets ==
+    LET Cs(len) == {<<"B", v>> : v \in 0..(len + 1)} \cup {<<"E", -v>> : v \in 0..(len + 1)} \cup {<<"E", 1>>}
+        Os(len) == {Off(b[1], b[2], e[1], e[2]) : b \in Cs(len), e \in Cs(len)}
+    IN UNION {{TB("Text", ByH(r), NoRef, o) : o \in Os(Len(st.res[r].text))} : r \in LiveRes(st)}
+       \cup UNION {{TB("Ann", ByH(x), NoRef, o) : o \in Os(AnnTextLen(x))} : x \in {y \in LiveAnns(st) : HasSingleText(st.anns[y])}}
+
 AnnotateMenu ==
-    CASE Scenario = "core" ->
+    CASE Scenario = "offsets" -> {[id |-> "", target |-> t, data |-> <<>>] : t \in OffsetTargets}
+      [] Scenario = "core" ->
            {[id |-> i, target |-> t, data |-> d] : i \in AnnIds, t \in SimpleTargets, d \in DataMenu}
       [] Scenario = "complex" ->
            {[id |-> "", target |-> t, data |-> <<>>] : t \in SimpleTargets \cup ComplexTargets}
@@ -106,6 +116,17 @@ PreludeOps ==
                              ann("a1", txt(0, 3), d1), ann("a2", txt(0, 1), d1), ann("", txt(0, 3), d1 \o d2),
                              ann("", TB("Res", ById("r1"), NoRef, NoOffset), d1),
                              ann("", TB("Text", ById("r2"), NoRef, Off("B", 0, "B", 1)), d2)>>
+         \* 7: offsets: 1-4 byte characters, an empty text, a chain of annotation-relative offsets of depth 3
+         [] Prelude = 7 -> <<[ev |-> "AddResource", a |-> [id |-> "r1", text |-> <<11, 12, 13, 14>>]],
+                             [ev |-> "AddResource", a |-> [id |-> "r2", text |-> <<>>]],
+                             ann("a1", TB("Text", ById("r1"), NoRef, Off("B", 1, "B", 4)), <<>>),
+                             ann("a2", TB("Ann", ById("a1"), NoRef, Off("B", 1, "E", 0)), <<>>),
+                             ann("a3", TB("Ann", ById("a2"), NoRef, Off("E", -2, "E", -1)), <<>>),
+                             ann("a4", TB("Text", ById("r2"), NoRef, Off("B", 0, "E", 0)), <<>>)>>
+         \* 8: one 24-character text with 1-4 byte characters (milestones of every interval fall inside it)
+         [] Prelude = 8 -> <<[ev |-> "AddResource", a |-> [id |-> "r1", text |-> <<11, 12, 13, 14, 21, 22, 23, 24, 31, 32, 33, 41,
+                                                                                   42, 51, 61, 71, 81, 11, 12, 13, 14, 21, 22, 23>>]],
+                             ann("a1", TB("Text", ById("r1"), NoRef, Off("B", 3, "B", 9)), <<>>)>>
          \* 6: metadata annotations on keys/data/sets and annotations on annotations (chain + relative offset)
          [] OTHER -> <<addres, addset, ann("a1", txt(0, 2), d1),
                        ann("", TB("Key", ById("s1"), ById("k1"), NoOffset), <<>>),
@@ -127,11 +148,14 @@ Step(ev, a) ==
     /\ hist' = Append(hist, [ev |-> ev, a |-> a])
 
 Building == Scenario # "remove"
+\* tuning steps do not change the specification state, so they are only worth generating when histories are emitted
+Tuning == ~EmitAll
+Adding == Scenario \notin {"remove", "offsets"}
 Removing == Scenario \in {"all", "remove", "core"}
 
 Next ==
-    \/ Building /\ \E i \in ResIds, t \in Texts : Step("AddResource", [id |-> i, text |-> t])
-    \/ Building /\ \E i \in SetIds : Step("AddDataset", [id |-> i])
+    \/ Adding /\ \E i \in ResIds, t \in Texts : Step("AddResource", [id |-> i, text |-> t])
+    \/ Adding /\ \E i \in SetIds : Step("AddDataset", [id |-> i])
     \/ Building /\ \E a \in AnnotateMenu : Step("Annotate", a)
     \/ Building /\ Scenario \in {"all", "core"} /\ \E s \in SetRefs, k \in {"k1", "k2"}, v \in Vals, sf \in BOOLEAN :
           Step("InsertData", [set |-> s, key |-> ById(k), id |-> NoRef, val |-> v, safety |-> sf])
@@ -144,6 +168,7 @@ Next ==
           Step("RemoveKey", [set |-> ByH(s), key |-> ByH(k), strict |-> strict])
     \/ Scenario = "all" /\ Step("StripAnnotationIds", [x |-> 0])
     \/ Scenario = "all" /\ Step("StripDataIds", [x |-> 0])
+    \/ Scenario \in {"all", "offsets"} /\ Tuning /\ Step("ShrinkToFit", [x |-> 0])
 
 Init == st = ApplyAll(InitState, PreludeOps) /\ hist = PreludeOps
 Spec == Init /\ [][Next]_vars
@@ -222,5 +247,7 @@ ReadOps ==
     \o (IF Has("anntext") THEN SetToSeq(AnnOps) \o SetToSeq(ReportOps) ELSE <<>>)
     \o (IF Has("bytes") THEN SetToSeq(ByteOps) ELSE <<>>)
 
-Emit == Len(hist) = Depth + Len(PreludeOps) => PrintT(<<"REPLAY", ToJson(hist \o ReadOps)>>)
+\* EmitAll (used with VIEW View): one behaviour per distinct reachable state, so that read-only questions are asked
+\* once per state instead of once per history
+Emit == (EmitAll \/ Len(hist) = Depth + Len(PreludeOps)) => PrintT(<<"REPLAY", ToJson(hist \o ReadOps)>>)
 =============================================================================
